@@ -900,9 +900,9 @@ inductive VarKind where
   | enumEntry (name : String)
   deriving Repr, DecidableEq
 
-/-- `VariableKind::from_str` (`s.splitn(3, '.')`) -/
-def VarKind.ofName (s : String) : Res Err VarKind :=
-  match s.splitOn "." with
+/-- `VariableKind::from_str` on the dot-separated parts of the name (`s.splitn(3, '.')`:
+everything after the second dot belongs to the third part) -/
+def VarKind.ofParts : List String → Res Err VarKind
   | [_] => .ok .value
   | [_, k] =>
     if k == "Value" then .ok .value
@@ -913,6 +913,9 @@ def VarKind.ofName (s : String) : Res Err VarKind :=
   | _ :: k :: rest =>
     if k == "Enum" then .ok (.enumEntry (".".intercalate rest)) else .err .invalidNode
   | [] => .err .invalidNode
+
+/-- `VariableKind::from_str` -/
+def VarKind.ofName (s : String) : Res Err VarKind := VarKind.ofParts (s.splitOn ".")
 
 /-- An environment is the insertion history, newest first; `HashMap::insert`
 overwrites, so lookup returns the newest binding. -/
